@@ -1,11 +1,682 @@
-import NimaVerif.Model.Trivia
-/-! Lemmas about the trivia algebra (L2). -/
+import NimaVerif.Model.TriviaSpec
+/-! Lemmas about the trivia algebra (L2): blank-line detection, canonical gaps, separators,
+`format_trivia` as a flatMap, pieces, comment rendering. Core Lean only. -/
 namespace Nima
 
 @[simp] theorem spaces_zero : spaces 0 = [] := rfl
 theorem spaces_succ (n : Nat) : spaces (n + 1) = ' ' :: spaces n := rfl
+@[simp] theorem length_spaces (n : Nat) : (spaces n).length = n := by simp [spaces]
+theorem mem_spaces {c : Char} {n : Nat} (h : c ∈ spaces n) : c = ' ' := by
+  simp [spaces] at h; exact h.2
 
 theorem containsNL_append (a b : Text) : containsNL (a ++ b) = (containsNL a || containsNL b) := by
   simp [containsNL]
+@[simp] theorem containsNL_nil : containsNL [] = false := rfl
+theorem containsNL_cons (c : Char) (s : Text) : containsNL (c :: s) = (c == '\n' || containsNL s) := by
+  by_cases h : c = '\n'
+  · subst h; simp [containsNL]
+  · have h' := Ne.symm h; simp [containsNL, h, h']
+@[simp] theorem containsNL_spaces (n : Nat) : containsNL (spaces n) = false := by
+  induction n with
+  | zero => rfl
+  | succ n ih => rw [spaces_succ, containsNL_cons, ih]; decide
+theorem containsNL_iff (s : Text) : containsNL s = true ↔ '\n' ∈ s := by simp [containsNL]
+theorem containsNL_false_iff (s : Text) : containsNL s = false ↔ '\n' ∉ s := by simp [containsNL]
+
+/-! ### blank-line detection -/
+
+theorem hasEmptyLineRe_cons_ne {c : Char} (h : c ≠ '\n') (cs : Text) :
+    hasEmptyLineRe (c :: cs) = hasEmptyLineRe cs := by
+  simp [hasEmptyLineRe, h]
+
+theorem hasEmptyLineRe_nl (cs : Text) :
+    hasEmptyLineRe ('\n' :: cs) = ((cs.dropWhile isGapBlank).head? == some '\n' || hasEmptyLineRe cs) := by
+  simp [hasEmptyLineRe]
+
+theorem hasEmptyLineRe_dropWhile (p : Char → Bool) (hp : ∀ c, p c = true → c ≠ '\n') (s : Text) :
+    hasEmptyLineRe (s.dropWhile p) = hasEmptyLineRe s := by
+  induction s with
+  | nil => rfl
+  | cons c cs ih =>
+    by_cases h : p c = true
+    · rw [List.dropWhile_cons_of_pos h, ih, hasEmptyLineRe_cons_ne (hp c h)]
+    · rw [List.dropWhile_cons_of_neg h]
+
+theorem isGapBlank_ne_nl (c : Char) (h : isGapBlank c = true) : c ≠ '\n' := by
+  intro hc; subst hc; simp [isGapBlank] at h
+
+theorem hasEmptyLineRe_count : ∀ (s : Text), hasEmptyLineRe s = true → 2 ≤ s.count '\n'
+  | [], h => by simp [hasEmptyLineRe] at h
+  | c :: cs, h => by
+    by_cases hc : c = '\n'
+    · subst hc
+      rw [hasEmptyLineRe_nl] at h
+      simp only [Bool.or_eq_true] at h
+      rcases h with h | h
+      · have : '\n' ∈ cs := by
+          have h1 : (cs.dropWhile isGapBlank).head? = some '\n' := by simpa using h
+          have h2 : '\n' ∈ cs.dropWhile isGapBlank := List.mem_of_head? h1
+          exact (List.dropWhile_sublist _).subset h2
+        have : 0 < cs.count '\n' := List.count_pos_iff.mpr this
+        rw [List.count_cons_self]; omega
+      · have := hasEmptyLineRe_count cs h
+        rw [List.count_cons_self]; omega
+    · rw [hasEmptyLineRe_cons_ne hc] at h
+      have := hasEmptyLineRe_count cs h
+      rw [List.count_cons_of_ne hc]; exact this
+
+theorem gapHasEmptyLine_eq_re (g : Text) : gapHasEmptyLine g = hasEmptyLineRe g := by
+  unfold gapHasEmptyLine
+  cases h : hasEmptyLineRe g
+  · simp
+  · have h2 := hasEmptyLineRe_count g h
+    have h3 : containsNL g = true := by
+      rw [containsNL_iff]; exact List.count_pos_iff.mp (by omega)
+    simp [h3]; omega
+
+theorem head_dropWhile_ne_nl (s : Text) (x : Char) (more : Text)
+    (h : s.dropWhile (· != '\n') = x :: more) : x = '\n' := by
+  have := List.head_dropWhile_not (· != '\n') (l := s) (by rw [h]; simp)
+  simpa [h] using this
+
+theorem emptyLineScan_eq : ∀ (fuel : Nat) (s : Text), s.length < fuel →
+    emptyLineScan fuel s = hasEmptyLineRe ('\n' :: s)
+  | 0, s, h => by omega
+  | fuel + 1, s, h => by
+    rw [hasEmptyLineRe_nl, emptyLineScan]
+    have hre : hasEmptyLineRe s = hasEmptyLineRe (s.dropWhile isGapBlank) :=
+      (hasEmptyLineRe_dropWhile _ isGapBlank_ne_nl s).symm
+    have hlen : (s.dropWhile isGapBlank).length ≤ s.length := (List.dropWhile_sublist _).length_le
+    rw [hre]
+    generalize s.dropWhile isGapBlank = rest at hlen ⊢
+    cases rest with
+    | nil => simp [hasEmptyLineRe]
+    | cons c r =>
+      by_cases hc : c = '\n'
+      · subst hc; simp
+      · have hb : ((c :: r).head? == some '\n') = false := by simp [hc]
+        rw [hb, Bool.false_or]
+        simp only [if_neg hc]
+        have h1 : hasEmptyLineRe (c :: r) = hasEmptyLineRe ((c :: r).dropWhile (· != '\n')) :=
+          (hasEmptyLineRe_dropWhile _ (by intro c h; simpa using h) _).symm
+        have hlen2 : ((c :: r).dropWhile (· != '\n')).length ≤ (c :: r).length :=
+          (List.dropWhile_sublist _).length_le
+        rw [h1]
+        cases hafter : (c :: r).dropWhile (· != '\n') with
+        | nil => simp [hasEmptyLineRe]
+        | cons x more =>
+          have hx := head_dropWhile_ne_nl _ _ _ hafter
+          subst hx
+          rw [hafter] at hlen2
+          simp only [List.length_cons] at hlen2 hlen
+          exact emptyLineScan_eq fuel more (by omega)
+
+
+theorem gapHasEmptyLineOffsets_eq_re (g : Text) : gapHasEmptyLineOffsets g = hasEmptyLineRe g := by
+  unfold gapHasEmptyLineOffsets
+  have h1 : hasEmptyLineRe g = hasEmptyLineRe (g.dropWhile (· != '\n')) :=
+    (hasEmptyLineRe_dropWhile _ (by intro c h; simpa using h) _).symm
+  have hlen : (g.dropWhile (· != '\n')).length ≤ g.length := (List.dropWhile_sublist _).length_le
+  rw [h1]
+  cases hafter : g.dropWhile (· != '\n') with
+  | nil => simp [hasEmptyLineRe]
+  | cons x rest =>
+    have hx := head_dropWhile_ne_nl _ _ _ hafter
+    subst hx
+    rw [hafter] at hlen
+    simp only [List.length_cons] at hlen
+    by_cases hc : rest.contains '\n' = true
+    · simp only [hc, Bool.not_true, Bool.false_eq_true, if_false]
+      exact emptyLineScan_eq _ _ (by omega)
+    · simp only [hc, Bool.not_false, if_true]
+      cases hre : hasEmptyLineRe ('\n' :: rest) with
+      | false => rfl
+      | true =>
+        have := hasEmptyLineRe_count _ hre
+        rw [List.count_cons_self] at this
+        have : '\n' ∈ rest := List.count_pos_iff.mp (by omega)
+        simp at hc; exact absurd this hc
+
+theorem takeWhile_all (p : Char → Bool) : ∀ (l : Text), ∀ c ∈ l.takeWhile p, p c = true
+  | [], c, h => by simp at h
+  | x :: l, c, h => by
+    by_cases hx : p x = true
+    · rw [List.takeWhile_cons_of_pos hx] at h
+      rcases List.mem_cons.mp h with rfl | h
+      · exact hx
+      · exact takeWhile_all p l c h
+    · rw [List.takeWhile_cons_of_neg hx] at h; simp at h
+
+/-- The model of the regex `\n[ \t]*\n` has the regex's meaning. -/
+theorem hasEmptyLineRe_iff (s : Text) :
+    hasEmptyLineRe s = true ↔
+      ∃ a b m : Text, (∀ c ∈ b, isGapBlank c = true) ∧ s = a ++ '\n' :: b ++ '\n' :: m := by
+  induction s with
+  | nil => simp [hasEmptyLineRe]
+  | cons c cs ih =>
+    constructor
+    · intro h
+      by_cases hc : c = '\n'
+      · subst hc
+        rw [hasEmptyLineRe_nl, Bool.or_eq_true] at h
+        rcases h with h | h
+        · have h1 : (cs.dropWhile isGapBlank).head? = some '\n' := by simpa using h
+          refine ⟨[], cs.takeWhile isGapBlank, (cs.dropWhile isGapBlank).tail, ?_, ?_⟩
+          · intro c hc; exact takeWhile_all _ _ c hc
+          · have : cs.dropWhile isGapBlank = '\n' :: (cs.dropWhile isGapBlank).tail := by
+              cases hd : cs.dropWhile isGapBlank with
+              | nil => rw [hd] at h1; simp at h1
+              | cons x r => rw [hd] at h1; simp at h1; simp [h1]
+            rw [← this]; simp
+        · obtain ⟨a, b, m, hb, rfl⟩ := ih.mp h
+          exact ⟨'\n' :: a, b, m, hb, rfl⟩
+      · rw [hasEmptyLineRe_cons_ne hc] at h
+        obtain ⟨a, b, m, hb, rfl⟩ := ih.mp h
+        exact ⟨c :: a, b, m, hb, rfl⟩
+    · rintro ⟨a, b, m, hb, h⟩
+      cases a with
+      | nil =>
+        simp only [List.nil_append] at h
+        obtain ⟨rfl, rfl⟩ := h
+        rw [hasEmptyLineRe_nl]
+        have : (b ++ '\n' :: m).dropWhile isGapBlank = '\n' :: m := by
+          rw [List.dropWhile_append_of_pos hb]; simp [isGapBlank]
+        simp [this]
+      | cons x a =>
+        simp only [List.cons_append, List.cons.injEq] at h
+        obtain ⟨rfl, rfl⟩ := h
+        have : hasEmptyLineRe (a ++ '\n' :: b ++ '\n' :: m) = true := ih.mpr ⟨a, b, m, hb, by simp⟩
+        by_cases hc : c = '\n'
+        · subst hc; rw [hasEmptyLineRe_nl]; simp at this; simp [this]
+        · rw [hasEmptyLineRe_cons_ne hc]; simpa using this
+
+/-! ### canonical gaps -/
+
+theorem hasEmptyLineRe_spaces (k : Nat) : hasEmptyLineRe (spaces k) = false := by
+  induction k with
+  | zero => rfl
+  | succ k ih => rw [spaces_succ, hasEmptyLineRe_cons_ne (by decide), ih]
+
+theorem dropWhile_blank_spaces (k : Nat) : (spaces k).dropWhile isGapBlank = [] := by
+  induction k with
+  | zero => rfl
+  | succ k ih => rw [spaces_succ, List.dropWhile_cons_of_pos (by decide), ih]
+
+theorem gapHasEmptyLine_nl_spaces (k : Nat) : gapHasEmptyLine ('\n' :: spaces k) = false := by
+  rw [gapHasEmptyLine_eq_re, hasEmptyLineRe_nl, dropWhile_blank_spaces, hasEmptyLineRe_spaces]; rfl
+
+theorem gapHasEmptyLine_nlnl_spaces (k : Nat) : gapHasEmptyLine ('\n' :: '\n' :: spaces k) = true := by
+  rw [gapHasEmptyLine_eq_re, hasEmptyLineRe_nl]; simp [isGapBlank]
+
+theorem takeWhile_ne_nl_spaces (k : Nat) : (spaces k).takeWhile (· != '\n') = spaces k := by
+  induction k with
+  | zero => rfl
+  | succ k ih => rw [spaces_succ, List.takeWhile_cons_of_pos (by decide), ih]
+
+theorem indentFromGap_of_suffix (a : Text) (k : Nat) : indentFromGap (a ++ '\n' :: spaces k) = k := by
+  have hc : containsNL (a ++ '\n' :: spaces k) = true := by
+    rw [containsNL_append, containsNL_cons]; simp
+  unfold indentFromGap
+  simp only [hc, Bool.not_true, Bool.false_eq_true, if_false]
+  have : (a ++ '\n' :: spaces k).reverse = spaces k ++ '\n' :: a.reverse := by
+    simp [spaces]
+  rw [this, List.takeWhile_append_of_pos (by intro c hc; rw [mem_spaces hc]; decide)]
+  simp
+
+theorem indentFromGap_nl_spaces (k : Nat) : indentFromGap ('\n' :: spaces k) = k :=
+  indentFromGap_of_suffix [] k
+theorem indentFromGap_nlnl_spaces (k : Nat) : indentFromGap ('\n' :: '\n' :: spaces k) = k :=
+  indentFromGap_of_suffix ['\n'] k
+
+theorem fromGap_nl_spaces (k : Nat) :
+    Layout.fromGap ('\n' :: spaces k) = { onNewline := true, blankLine := false, indent := some k } := by
+  simp [Layout.fromGap, containsNL_cons, gapHasEmptyLine_nl_spaces, indentFromGap_nl_spaces]
+
+theorem fromGap_nlnl_spaces (k : Nat) :
+    Layout.fromGap ('\n' :: '\n' :: spaces k) = { onNewline := true, blankLine := true, indent := some k } := by
+  simp [Layout.fromGap, containsNL_cons, gapHasEmptyLine_nlnl_spaces, indentFromGap_nlnl_spaces]
+
+theorem fromGap_no_nl (g : Text) (h : containsNL g = false) : Layout.fromGap g = {} := by
+  simp [Layout.fromGap, h]
+
+
+/-! ### NormalSep -/
+
+theorem all_eq_spaces : ∀ (r : Text), r.all (· == ' ') = true → r = spaces r.length
+  | [], _ => rfl
+  | c :: r, h => by
+    simp only [List.all_cons, Bool.and_eq_true, beq_iff_eq] at h
+    rw [List.length_cons, spaces_succ, h.1, ← all_eq_spaces r h.2]
+
+theorem all_spaces (k : Nat) : (spaces k).all (· == ' ') = true := by
+  simp [spaces]
+
+theorem normalSep_iff (s : Text) : NormalSep s ↔ isNormalSep s = true := by
+  constructor
+  · rintro (rfl | rfl | ⟨k, rfl | rfl⟩)
+    · rfl
+    · rfl
+    · cases k with
+      | zero => rfl
+      | succ k => rw [spaces_succ]; simp [isNormalSep, all_spaces]
+    · simp [isNormalSep, all_spaces]
+  · intro h
+    unfold isNormalSep at h
+    split at h
+    · exact Or.inl rfl
+    · exact Or.inr (Or.inl rfl)
+    · exact Or.inr (Or.inr ⟨_, Or.inr (by rw [← all_eq_spaces _ h])⟩)
+    · exact Or.inr (Or.inr ⟨_, Or.inl (by rw [← all_eq_spaces _ h])⟩)
+    · simp at h
+
+instance (s : Text) : Decidable (NormalSep s) := decidable_of_iff _ (normalSep_iff s).symm
+
+theorem count_nl_spaces (k : Nat) : (spaces k).count '\n' = 0 := by
+  rw [List.count_eq_zero]; intro h; exact absurd (mem_spaces h) (by decide)
+
+/-! ### format_trivia -/
+
+theorem formatTriviaGo_flatMap (i : Nat) : ∀ (ts : List Trivia) (acc : Text) (e : Bool), CommaFree ts →
+    formatTriviaGo i ts acc e = acc ++ ts.flatMap (itemText i)
+  | [], acc, e, _ => by simp [formatTriviaGo]
+  | .emptyLine :: rest, acc, e, h => by
+    rw [formatTriviaGo, formatTriviaGo_flatMap i rest _ _ (fun hm => h (List.mem_cons_of_mem _ hm))]
+    simp [itemText]
+  | .linebreak :: rest, acc, e, h => by
+    rw [formatTriviaGo, formatTriviaGo_flatMap i rest _ _ (fun hm => h (List.mem_cons_of_mem _ hm))]
+    simp [itemText]
+  | .comma :: rest, acc, e, h => absurd (List.mem_cons_self) h
+  | .comment c :: rest, acc, e, h => by
+    rw [formatTriviaGo, formatTriviaGo_flatMap i rest _ _ (fun hm => h (List.mem_cons_of_mem _ hm))]
+    simp [itemText]
+
+theorem formatTrivia_eq_flatMap (ts : List Trivia) (i : Nat) (h : CommaFree ts) :
+    formatTrivia ts i = ts.flatMap (itemText i) := by
+  rw [formatTrivia, formatTriviaGo_flatMap i ts [] true h]; rfl
+
+theorem commaFree_cons {t : Trivia} {ts : List Trivia} (h : CommaFree (t :: ts)) : CommaFree ts :=
+  fun hm => h (List.mem_cons_of_mem _ hm)
+theorem commaFree_append {a b : List Trivia} : CommaFree (a ++ b) ↔ CommaFree a ∧ CommaFree b := by
+  simp [CommaFree, List.mem_append, not_or]
+
+/-! ### comment rendering -/
+
+theorem blockFold_eq (k : Nat) : ∀ (l : List Text) (init : Text),
+    l.foldl (fun acc ln => if ln.isEmpty then acc ++ ['\n'] else acc ++ '\n' :: spaces k ++ ln) init
+      = init ++ l.flatMap (fun ln => if ln.isEmpty then ['\n'] else '\n' :: spaces k ++ ln)
+  | [], init => by simp
+  | ln :: l, init => by
+    rw [List.foldl_cons, blockFold_eq k l]
+    cases ln with
+    | nil => simp
+    | cons x xs => simp
+
+theorem rebuild_eq_token (c : Comment) (i : Nat) :
+    c.rebuild i = spaces (c.effIndent i) ++ c.token (c.effIndent i) := by
+  unfold Comment.rebuild Comment.token Comment.effIndent
+  cases c.kind with
+  | line => rfl
+  | block doc inner =>
+    simp only [blockFold_eq]
+    split <;> split <;> split <;> simp [List.append_assoc]
+
+theorem rebuild_inline (c : Comment) (i : Nat) (h : c.inline = true) : c.rebuild i = c.rebuild 0 := by
+  simp [Comment.rebuild, h]
+
+
+/-! ### pieces -/
+
+theorem piecesText_append (a b : List Piece) : piecesText (a ++ b) = piecesText a ++ piecesText b := by
+  simp [piecesText]
+
+theorem piecesText_itemPieces (i : Nat) (t : Trivia) : piecesText (itemPieces i t) = itemText i t := by
+  cases t <;> simp [piecesText, itemPieces, itemText, Piece.text, rebuild_eq_token]
+
+theorem piecesText_triviaPieces (i : Nat) (ts : List Trivia) :
+    piecesText (triviaPieces i ts) = ts.flatMap (itemText i) := by
+  induction ts with
+  | nil => rfl
+  | cons t ts ih =>
+    simp only [triviaPieces, List.flatMap_cons] at ih ⊢
+    rw [piecesText_append, piecesText_itemPieces, ih]
+
+/-- every comment piece is directly followed by a line-break piece -/
+def cmtClosed : List Piece → Bool
+  | [] => true
+  | .cmt _ :: .ws ['\n'] :: r => cmtClosed r
+  | .cmt _ :: _ => false
+  | .ws _ :: r => cmtClosed r
+
+theorem cmtClosed_spec : ∀ (n : Nat) (pre : List Piece) (ps : List Piece) (b : Text) (post : List Piece),
+    pre.length ≤ n → cmtClosed ps = true → ps = pre ++ .cmt b :: post → ∃ post', post = .ws ['\n'] :: post'
+  | n, [], ps, b, post, _, hc, he => by
+    subst he
+    simp only [List.nil_append] at hc
+    unfold cmtClosed at hc
+    split at hc
+    · simp_all
+    · simp_all
+    · simp at hc
+    · simp_all
+  | 0, p :: pre, _, _, _, hn, _, _ => by simp at hn
+  | n + 1, .ws s :: pre, ps, b, post, hn, hc, he => by
+    subst he
+    simp only [List.cons_append, cmtClosed] at hc
+    exact cmtClosed_spec n pre _ b post (by simp at hn; omega) hc rfl
+  | n + 1, .cmt s :: pre, ps, b, post, hn, hc, he => by
+    subst he
+    simp only [List.cons_append] at hc
+    cases pre with
+    | nil => simp [cmtClosed] at hc
+    | cons q pre' =>
+      cases q with
+      | cmt s' => simp [cmtClosed] at hc
+      | ws s' =>
+        simp only [List.cons_append] at hc
+        by_cases hs : s' = ['\n']
+        · subst hs
+          simp only [cmtClosed] at hc
+          exact cmtClosed_spec n pre' _ b post (by simp at hn; omega) hc rfl
+        · unfold cmtClosed at hc
+          split at hc <;> simp_all
+
+theorem cmtClosed_append : ∀ (a b : List Piece), cmtClosed a = true → cmtClosed b = true →
+    cmtClosed (a ++ b) = true := by
+  intro a
+  fun_induction cmtClosed a <;> intro b ha hb
+  · simpa using hb
+  · simp only [List.cons_append, cmtClosed]; rename_i ih; exact ih b ha hb
+  · simp at ha
+  · simp only [List.cons_append, cmtClosed]; rename_i ih; exact ih b ha hb
+
+theorem cmtClosed_triviaPieces (i : Nat) (ts : List Trivia) : cmtClosed (triviaPieces i ts) = true := by
+  induction ts with
+  | nil => rfl
+  | cons t ts ih =>
+    simp only [triviaPieces, List.flatMap_cons] at ih ⊢
+    apply cmtClosed_append _ _ _ ih
+    cases t <;> simp [itemPieces, cmtClosed]
+
+theorem triviaPieces_lines (i : Nat) (ts : List Trivia) (h : CommaFree ts) :
+    ∃ lines : List (List Piece), triviaPieces i ts = lines.flatten ∧ ∀ ln ∈ lines, TriviaLine i ln := by
+  induction ts with
+  | nil => exact ⟨[], rfl, by simp⟩
+  | cons t ts ih =>
+    obtain ⟨lines, hl, hw⟩ := ih (commaFree_cons h)
+    simp only [triviaPieces, List.flatMap_cons] at hl ⊢
+    cases t with
+    | emptyLine =>
+      refine ⟨[.ws ['\n']] :: lines, by simp [itemPieces, hl], ?_⟩
+      intro ln hm
+      rcases List.mem_cons.mp hm with rfl | hm
+      · exact Or.inl rfl
+      · exact hw ln hm
+    | linebreak => exact ⟨lines, by simp [itemPieces, hl], hw⟩
+    | comma => exact absurd List.mem_cons_self h
+    | comment c =>
+      refine ⟨_ :: lines, by simp only [List.flatten_cons, hl]; rfl, ?_⟩
+      intro ln hm
+      rcases List.mem_cons.mp hm with rfl | hm
+      · refine Or.inr ⟨c.effIndent i, _, ?_, rfl⟩
+        unfold Comment.effIndent; split <;> simp
+      · exact hw ln hm
+
+theorem filterMap_cmt_triviaPieces (i : Nat) (ts : List Trivia) (h : CommaFree ts) :
+    (triviaPieces i ts).filterMap Piece.cmt? = commentTokens i ts := by
+  induction ts with
+  | nil => rfl
+  | cons t ts ih =>
+    have ih := ih (commaFree_cons h)
+    simp only [triviaPieces, List.flatMap_cons, commentTokens] at ih ⊢
+    rw [List.filterMap_append, ih]
+    cases t with
+    | comma => exact absurd List.mem_cons_self h
+    | _ => simp [itemPieces, Piece.cmt?, List.filterMap_cons]
+
+/-! ### newline termination -/
+
+theorem endsWithNL_append (a b : Text) :
+    endsWithNL (a ++ b) = if b.isEmpty then endsWithNL a else endsWithNL b := by
+  cases b with
+  | nil => simp
+  | cons x xs =>
+    have : (x :: xs).getLast? = some ((x :: xs).getLast (by simp)) := List.getLast?_eq_some_getLast (by simp)
+    simp [endsWithNL, List.getLast?_append, this]
+
+@[simp] theorem endsWithNL_nil : endsWithNL [] = false := rfl
+@[simp] theorem endsWithNL_concat (a : Text) (c : Char) : endsWithNL (a ++ [c]) = (c == '\n') := by
+  simp [endsWithNL]
+
+theorem itemText_nil_or_nl (i : Nat) (t : Trivia) (h : t ≠ .comma) :
+    itemText i t = [] ∨ endsWithNL (itemText i t) = true := by
+  cases t with
+  | emptyLine => right; rfl
+  | linebreak => left; rfl
+  | comma => exact absurd rfl h
+  | comment c => right; simp [itemText]
+
+theorem flatMap_itemText_nil_or_nl (i : Nat) (ts : List Trivia) (h : CommaFree ts) :
+    ts.flatMap (itemText i) = [] ∨ endsWithNL (ts.flatMap (itemText i)) = true := by
+  induction ts with
+  | nil => left; rfl
+  | cons t ts ih =>
+    rw [List.flatMap_cons, endsWithNL_append]
+    rcases ih (commaFree_cons h) with h0 | h1
+    · rw [h0]; simpa using itemText_nil_or_nl i t (fun e => h (e ▸ List.mem_cons_self))
+    · right
+      cases hf : ts.flatMap (itemText i) with
+      | nil => rw [hf] at h1; simp at h1
+      | cons x xs => rw [hf] at h1; simpa using h1
+
+theorem formatTrivia_nil_or_nl (ts : List Trivia) (i : Nat) (h : CommaFree ts) :
+    formatTrivia ts i = [] ∨ endsWithNL (formatTrivia ts i) = true := by
+  rw [formatTrivia_eq_flatMap ts i h]; exact flatMap_itemText_nil_or_nl i ts h
+
+theorem formatTrivia_append (a b : List Trivia) (i : Nat) (h : CommaFree (a ++ b)) :
+    formatTrivia (a ++ b) i = formatTrivia a i ++ formatTrivia b i := by
+  rw [formatTrivia_eq_flatMap _ i h, formatTrivia_eq_flatMap _ i (commaFree_append.mp h).1,
+    formatTrivia_eq_flatMap _ i (commaFree_append.mp h).2, List.flatMap_append]
+
+theorem formatTrivia_eq_nil_iff (ts : List Trivia) (i : Nat) (h : CommaFree ts) :
+    formatTrivia ts i = [] ↔ ts.all (· == .linebreak) = true := by
+  rw [formatTrivia_eq_flatMap ts i h]
+  induction ts with
+  | nil => simp
+  | cons t ts ih =>
+    rw [List.flatMap_cons, List.append_eq_nil_iff, ih (commaFree_cons h), List.all_cons, Bool.and_eq_true]
+    cases t with
+    | comma => exact absurd List.mem_cons_self h
+    | _ => simp [itemText]
+
+
+/-! ### splitLines / joinLines -/
+
+theorem splitLines_ne_nil : ∀ (s : Text), splitLines s ≠ []
+  | [] => by simp [splitLines]
+  | c :: cs => by
+    unfold splitLines
+    split
+    · simp
+    · split <;> simp
+
+theorem splitLines_cons_nl (s : Text) : splitLines ('\n' :: s) = [] :: splitLines s := by
+  rw [splitLines]
+  split
+  · rename_i h; exact absurd h (splitLines_ne_nil s)
+  · rename_i h; simp [h]
+
+theorem splitLines_cons_ne {c : Char} (hc : c ≠ '\n') (s : Text) :
+    splitLines (c :: s) = (c :: (splitLines s).headD []) :: (splitLines s).tail := by
+  rw [splitLines]
+  split
+  · rename_i h; exact absurd h (splitLines_ne_nil s)
+  · rename_i h; simp [h, hc]
+
+theorem splitLines_no_nl : ∀ (s : Text), containsNL s = false → splitLines s = [s]
+  | [], _ => rfl
+  | c :: cs, h => by
+    rw [containsNL_cons, Bool.or_eq_false_iff] at h
+    have hc : c ≠ '\n' := by simpa using h.1
+    rw [splitLines_cons_ne hc, splitLines_no_nl cs h.2]; rfl
+
+theorem splitLines_append_nl : ∀ (a b : Text), containsNL a = false →
+    splitLines (a ++ '\n' :: b) = a :: splitLines b
+  | [], b, _ => splitLines_cons_nl b
+  | c :: a, b, h => by
+    rw [containsNL_cons, Bool.or_eq_false_iff] at h
+    have hc : c ≠ '\n' := by simpa using h.1
+    rw [List.cons_append, splitLines_cons_ne hc, splitLines_append_nl a b h.2]; rfl
+
+theorem splitLines_lines_no_nl : ∀ (s : Text), ∀ l ∈ splitLines s, containsNL l = false
+  | [], l, h => by simp [splitLines] at h; subst h; rfl
+  | c :: cs, l, h => by
+    have ih := splitLines_lines_no_nl cs
+    by_cases hc : c = '\n'
+    · subst hc
+      rw [splitLines_cons_nl] at h
+      rcases List.mem_cons.mp h with rfl | h
+      · rfl
+      · exact ih l h
+    · rw [splitLines_cons_ne hc] at h
+      have hne := splitLines_ne_nil cs
+      cases hs : splitLines cs with
+      | nil => exact absurd hs hne
+      | cons x xs =>
+        rw [hs] at h ih
+        simp only [List.headD_cons, List.tail_cons] at h
+        rcases List.mem_cons.mp h with rfl | h
+        · rw [containsNL_cons, ih x List.mem_cons_self]; simp [hc]
+        · exact ih l (List.mem_cons_of_mem _ h)
+
+theorem joinLines_cons_cons (a b : Text) (ls : List Text) :
+    joinLines (a :: b :: ls) = a ++ '\n' :: joinLines (b :: ls) := rfl
+
+theorem joinLines_splitLines : ∀ (s : Text), joinLines (splitLines s) = s
+  | [] => rfl
+  | c :: cs => by
+    have ih := joinLines_splitLines cs
+    have hne := splitLines_ne_nil cs
+    by_cases hc : c = '\n'
+    · subst hc
+      rw [splitLines_cons_nl]
+      cases hs : splitLines cs with
+      | nil => exact absurd hs hne
+      | cons x xs => rw [joinLines_cons_cons, ← hs, ih]; rfl
+    · rw [splitLines_cons_ne hc]
+      cases hs : splitLines cs with
+      | nil => exact absurd hs hne
+      | cons x xs =>
+        rw [hs] at ih
+        simp only [List.headD_cons, List.tail_cons]
+        cases xs with
+        | nil => simp only [joinLines] at ih ⊢; rw [ih]
+        | cons y ys => rw [joinLines_cons_cons] at ih ⊢; rw [List.cons_append, ih]
+
+theorem splitLines_joinLines : ∀ (ls : List Text), ls ≠ [] → (∀ l ∈ ls, containsNL l = false) →
+    splitLines (joinLines ls) = ls
+  | [], h, _ => absurd rfl h
+  | [l], _, h => splitLines_no_nl l (h l List.mem_cons_self)
+  | a :: b :: ls, _, h => by
+    rw [joinLines_cons_cons, splitLines_append_nl a _ (h a List.mem_cons_self),
+      splitLines_joinLines (b :: ls) (by simp) (fun l hl => h l (List.mem_cons_of_mem _ hl))]
+
+theorem containsNL_joinLines_cons_cons (a b : Text) (ls : List Text) :
+    containsNL (joinLines (a :: b :: ls)) = true := by
+  rw [joinLines_cons_cons, containsNL_append, containsNL_cons]; simp
+
+/-! ### comments never end in a line break and are never empty -/
+
+theorem str_line_of_no_nl (c : Comment) (h : containsNL c.text = false) :
+    c.str = if c.shebang then '#' :: '!' :: c.text
+      else if c.text.isEmpty then ['#']
+      else (if c.spaceAfterHash then ['#', ' '] else ['#']) ++ c.text := by
+  unfold Comment.str
+  rw [splitLines_no_nl _ h]
+  by_cases hs : c.shebang = true
+  · simp [hs]
+  · simp only [hs, Bool.false_eq_true, if_false, List.map_cons, List.map_nil, joinLines]
+
+theorem token_ne_nil (c : Comment) (i : Nat) (h : c.tokenLike = true) : c.token i ≠ [] := by
+  unfold Comment.tokenLike at h
+  unfold Comment.token
+  cases hk : c.kind with
+  | line =>
+    rw [hk] at h
+    simp only [Bool.not_eq_eq_eq_not, Bool.not_true] at h
+    simp only [str_line_of_no_nl c h]
+    split
+    · simp
+    · split
+      · simp
+      · split <;> simp
+  | block doc inner =>
+    simp only
+    split
+    · split <;> split <;> simp
+    · split <;> simp
+
+theorem getLast?_ne_nl_of_no_nl (s : Text) (h : containsNL s = false) : s.getLast? ≠ some '\n' := by
+  intro hl
+  have := List.mem_of_getLast? hl
+  rw [containsNL_false_iff] at h
+  exact h this
+
+theorem endsWithNL_append_of_ne_nil (X Y : Text) (hY : Y ≠ []) : endsWithNL (X ++ Y) = endsWithNL Y := by
+  rw [endsWithNL_append]
+  cases Y with
+  | nil => exact absurd rfl hY
+  | cons y ys => rfl
+
+theorem closer_not_nl (i : Nat) (b : Bool) :
+    (if b then [' ', '*', '/'] else spaces i ++ ['*', '/']) ≠ [] ∧
+    endsWithNL (if b then [' ', '*', '/'] else spaces i ++ ['*', '/']) = false := by
+  cases b
+  · constructor
+    · simp
+    · rw [if_neg (by simp), endsWithNL_append_of_ne_nil _ _ (by simp)]; rfl
+  · exact ⟨by simp, rfl⟩
+
+theorem token_not_endsWithNL (c : Comment) (i : Nat) (h : c.tokenLike = true) :
+    endsWithNL (c.token i) = false := by
+  unfold Comment.tokenLike at h
+  unfold Comment.token
+  cases hk : c.kind with
+  | line =>
+    rw [hk] at h
+    simp only [Bool.not_eq_eq_eq_not, Bool.not_true] at h
+    simp only [str_line_of_no_nl c h]
+    have hl := getLast?_ne_nl_of_no_nl _ h
+    cases ht : c.text with
+    | nil => split <;> simp [endsWithNL]
+    | cons x xs =>
+      rw [ht] at hl
+      have e : ∀ p : Text, endsWithNL (p ++ x :: xs) = false := by
+        intro p
+        rw [endsWithNL_append]; simp only [List.isEmpty_cons, Bool.false_eq_true, if_false]
+        simpa [endsWithNL] using hl
+      split
+      · exact e ['#', '!']
+      · simp only [List.isEmpty_cons, Bool.false_eq_true, if_false]
+        split
+        · exact e ['#', ' ']
+        · exact e ['#']
+  | block doc inner =>
+    simp only
+    split
+    · have := closer_not_nl i (!endsWithNL c.text)
+      rw [endsWithNL_append_of_ne_nil _ _ this.1]; exact this.2
+    · rw [endsWithNL_append_of_ne_nil _ _ (by simp)]; rfl
+
+theorem rebuild_ne_nil (c : Comment) (i : Nat) (h : c.tokenLike = true) : c.rebuild i ≠ [] := by
+  rw [rebuild_eq_token]; simp [token_ne_nil c _ h]
+
+theorem rebuild_not_endsWithNL (c : Comment) (i : Nat) (h : c.tokenLike = true) :
+    endsWithNL (c.rebuild i) = false := by
+  rw [rebuild_eq_token, endsWithNL_append]
+  have := token_ne_nil c (c.effIndent i) h
+  cases ht : c.token (c.effIndent i) with
+  | nil => exact absurd ht this
+  | cons x xs => rw [← ht]; simp only [ht, List.isEmpty_cons, Bool.false_eq_true, if_false]; rw [← ht]; exact token_not_endsWithNL c _ h
+
 
 end Nima
